@@ -67,6 +67,8 @@ fn main() {
         "C09" => props::c09::run(&ctx),
         "C10" => props::c10::run(&ctx),
         "C11" => props::c11::run(&ctx),
+        "C12" => props::c12::run(&ctx),
+        "C13" => props::c13::run(&ctx),
         _ => {
             eprintln!("unknown or unclaimed property {}", prop);
             std::process::exit(2);
